@@ -60,7 +60,9 @@ Proof.
 Qed.
 Print Assumptions c18_unknown_absent_no_panic.
 
-(* the stack / instruction pointer names read the location of the dedicated accessors *)
+(* the stack / instruction pointer names read the location of the dedicated accessors; the
+   accessors' bodies ([ct_sp_acc], [ct_ip_acc]) are regenerated from the source as expressions
+   and evaluated by [aeval] *)
 Theorem c18_sp_ip_agree : forall c, In c all_contexts -> forall rf,
   (get_always c rf (ct_sp_name c) = Ret (rf_get rf (ct_sp_loc c)) /\
    md_stack_pointer c rf = Ret (rf_get rf (ct_sp_loc c)) /\ memoize c (ct_sp_name c) <> None) /\
@@ -68,10 +70,64 @@ Theorem c18_sp_ip_agree : forall c, In c all_contexts -> forall rf,
    md_instruction_pointer c rf = Ret (rf_get rf (ct_ip_loc c)) /\ memoize c (ct_ip_name c) <> None).
 Proof.
   intros c Hc rf. pose proof (all_facts c Hc) as F. split.
-  - exact (special_agrees c F _ _ (f_sp c F) rf).
-  - exact (special_agrees c F _ _ (f_ip c F) rf).
+  - destruct (special_agrees c F _ _ (f_sp c F) rf) as [A [B [C _]]]. repeat split; assumption.
+  - destruct (special_agrees c F _ _ (f_ip c F) rf) as [A [B [C _]]]. repeat split; assumption.
 Qed.
 Print Assumptions c18_sp_ip_agree.
+
+(* ... for ALL register files, i.e. whatever cpsr / eflags / context_flags / any other field
+   holds and whatever the register's value is: the dedicated accessor returns exactly what
+   the unchecked read of the sp / ip register name returns (no mask, no mode-dependent
+   adjustment); and it follows writes by name: after set_register(n, v) it returns v when n is
+   a spelling of the sp / ip register (same canonical name), and what it returned before
+   for every other accepted name *)
+Theorem c18_accessors_follow_names : forall c, In c all_contexts -> forall rf,
+  md_stack_pointer c rf = get_always c rf (ct_sp_name c) /\
+  md_instruction_pointer c rf = get_always c rf (ct_ip_name c) /\
+  (forall n l v, In n (accepted c) -> find_arm n (ct_set c) = Some l ->
+     md_stack_pointer c (upd rf l v) =
+       (if opt_str_eqb (memoize c n) (memoize c (ct_sp_name c)) then Ret v else md_stack_pointer c rf) /\
+     md_instruction_pointer c (upd rf l v) =
+       (if opt_str_eqb (memoize c n) (memoize c (ct_ip_name c)) then Ret v else md_instruction_pointer c rf)).
+Proof.
+  intros c Hc rf. pose proof (all_facts c Hc) as F.
+  destruct (special_agrees c F _ _ (f_sp c F) rf) as [A1 [B1 _]].
+  destruct (special_agrees c F _ _ (f_ip c F) rf) as [A2 [B2 _]].
+  split; [unfold md_stack_pointer; rewrite A1, B1; reflexivity|].
+  split; [unfold md_instruction_pointer; rewrite A2, B2; reflexivity|].
+  intros n l v Hn Hl. split.
+  - exact (special_follows c F _ _ (f_sp c F) n l Hn Hl rf v).
+  - exact (special_follows c F _ _ (f_ip c F) n l Hn Hl rf v).
+Qed.
+Print Assumptions c18_accessors_follow_names.
+
+(* what the checker does with an accessor that is NOT a plain read: the ARM table with
+   get_instruction_pointer clearing bit 0 of pc when the Thumb bit (0x20) of cpsr is set.
+   The evaluated accessor and the by-name read differ on a register file with cpsr = 0x20
+   and an odd pc, agree when the Thumb bit is clear, and [diagnose] reports the table. *)
+Definition n_pc : name := [112; 99].
+Definition l_arm_pc : loc := mkloc [105; 114; 101; 103; 115] 15 32 16.
+Definition l_arm_cpsr : loc := mkloc [99; 112; 115; 114] (-1) 32 (-1).
+Definition arm_thumb_masked : ctx_table :=
+  {| ct_name := ct_name ctx_arm; ct_variant := ct_variant ctx_arm; ct_width := ct_width ctx_arm;
+     ct_registers := ct_registers ctx_arm; ct_get := ct_get ctx_arm; ct_set := ct_set ctx_arm;
+     ct_memo := ct_memo ctx_arm; ct_groups := ct_groups ctx_arm;
+     ct_sp_name := ct_sp_name ctx_arm; ct_ip_name := ct_ip_name ctx_arm;
+     ct_sp_acc := ct_sp_acc ctx_arm;
+     ct_ip_acc := ALet n_pc (ACast (ALoc l_arm_pc) 32 64)
+                    (AIf (BNe (AAnd (ALoc l_arm_cpsr) (ALit 32)) (ALit 0))
+                         (AAnd (AVar n_pc) (ANot (ALit 1) 64)) (AVar n_pc));
+     ct_fields := ct_fields ctx_arm; ct_gpr := ct_gpr ctx_arm |}.
+Theorem c18_masked_accessor_rejected :
+  let c := arm_thumb_masked in
+  let rf_thumb : regfile := upd (upd (fun _ _ => 0) l_arm_cpsr 32) l_arm_pc 32769 in
+  let rf_arm : regfile := upd (upd (fun _ _ => 0) l_arm_cpsr 0) l_arm_pc 32769 in
+  get_always c rf_thumb (ct_ip_name c) = Ret 32769 /\ md_instruction_pointer c rf_thumb = Ret 32768 /\
+  md_instruction_pointer c rf_arm = Ret 32769 /\
+  md_instruction_pointer ctx_arm rf_thumb = Ret 32769 /\
+  diagnose c <> [].
+Proof. cbv zeta. repeat split; try (vm_compute; reflexivity). vm_compute. discriminate. Qed.
+Print Assumptions c18_masked_accessor_rejected.
 
 (* validity by any alias is honoured for every alias: n is valid under Some(s) exactly when
    s holds a name with n's canonical name; get_register then yields the register's value *)
@@ -111,7 +167,8 @@ Definition sparc_before_fix : ctx_table :=
      ct_registers := ct_registers ctx_sparc; ct_get := ct_get ctx_sparc; ct_set := ct_set ctx_sparc;
      ct_memo := []; ct_groups := [];
      ct_sp_name := ct_sp_name ctx_sparc; ct_ip_name := ct_ip_name ctx_sparc;
-     ct_sp_loc := ct_sp_loc ctx_sparc; ct_ip_loc := ct_ip_loc ctx_sparc; ct_gpr := ct_gpr ctx_sparc |}.
+     ct_sp_acc := ct_sp_acc ctx_sparc; ct_ip_acc := ct_ip_acc ctx_sparc; ct_fields := ct_fields ctx_sparc;
+     ct_gpr := ct_gpr ctx_sparc |}.
 Definition n_o6 : name := [111; 54].
 Definition n_g_r14 : name := [103; 95; 114; 49; 52].
 Theorem c18_sparc_before_fix_refuted :
